@@ -91,13 +91,15 @@ func verifC11GW(c *drv.Ctx) {
 	for ip, mac := range c11gwMACs {
 		cache += fmt.Sprintf(`{"ip":%q,"mac":%q,"vendor":""}`+"\n", ip, mac)
 	}
+	// neighbours that are no IPv4 hosts (a cache built from the kernel's neighbour table has them): never a gateway
+	cache += `{"ip":"fe80::1","mac":"02:00:00:00:0f:01","vendor":""}` + "\n" + `{"ip":"2001:db8::7","mac":"02:00:00:00:0f:02","vendor":""}` + "\n"
 	cmds := []struct {
 		name string
 		args []string
 	}{{"tcp-syn", []string{"tcp", "syn", "-p", "80"}}, {"icmp", []string{"icmp"}}, {"udp", []string{"udp", "-p", "53"}}, {"tcp-fin", []string{"tcp", "fin", "-p", "80"}}}
 	// destinations without cache entry: off-link, and on the subnets of eth0 and eth1
 	targets := []string{"8.8.8.8", "10.0.200.1", "10.1.200.1"}
-	c.R.Rule = "multi-homed hosts (eth0 10.0.0.5/16, eth1 10.1.0.5/16; 7 routing tables: the better default route on either interface in both dump orders, two default routes on one interface, non-default routes with their own gateways and better metrics, a default route on one interface only) x {tcp syn, icmp, udp, tcp fin} x destination {off-link, on eth0's subnet, on eth1's subnet} without cache entry x --iface {absent, eth0, eth1}; the ARP cache knows the MAC of every gateway. " +
+	c.R.Rule = "multi-homed hosts (eth0 10.0.0.5/16, eth1 10.1.0.5/16; 7 routing tables: the better default route on either interface in both dump orders, two default routes on one interface, non-default routes with their own gateways and better metrics, a default route on one interface only) x {tcp syn, icmp, udp, tcp fin} x destination {off-link, on eth0's subnet, on eth1's subnet} without cache entry x --iface {absent, eth0, eth1}; the ARP cache knows the MAC of every gateway and also lists two IPv6 neighbours. " +
 		"Oracle: every frame leaves to the MAC of the lowest-metric DEFAULT route's gateway of the interface it leaves through; if that interface has no default route the command fails or reports errors and no frame goes to another interface's gateway. non-trivial = run"
 	idx := 0
 	for _, w := range worlds {
